@@ -197,7 +197,6 @@ type tObs struct {
 	Panic     string
 	State     map[string]map[string]map[string]val.Val // table -> uuid -> row
 	Refs      []oRef
-	Update    database.Update
 	gcOrPrune bool // the committed state differs from what the operations alone produce (rows collected / references pruned)
 }
 
@@ -233,6 +232,25 @@ func (l *txnLab) state() (map[string]map[string]map[string]val.Val, []oRef, erro
 // run executes one transaction the way server.Transact does: operations go
 // through JSON, Transact, and Commit iff no result carries an error.
 func (l *txnLab) run(ops []TOp) (ob tObs) {
+	return l.runWith(ops, func(oops []ovsdb.Operation) ([]*ovsdb.OperationResult, bool, string) {
+		tr := l.imdb.NewTransaction(l.name)
+		results, update := tr.Transact(oops...)
+		for _, r := range results {
+			if r != nil && r.Error != "" {
+				return results, false, ""
+			}
+		}
+		if err := l.imdb.Commit(l.name, uuid.New(), update); err != nil {
+			return results, false, err.Error()
+		}
+		return results, true, ""
+	})
+}
+
+// runWith executes one transaction through the given transactor (which
+// returns the results, whether the transaction was committed, and a commit
+// error if any) and reads the resulting state.
+func (l *txnLab) runWith(ops []TOp, transact func([]ovsdb.Operation) ([]*ovsdb.OperationResult, bool, string)) (ob tObs) {
 	var oops []ovsdb.Operation
 	for _, o := range ops {
 		op := o.operation(l.db)
@@ -254,10 +272,7 @@ func (l *txnLab) run(ops []TOp) (ob tObs) {
 				ob.Panic = fmt.Sprint(r)
 			}
 		}()
-		tr := l.imdb.NewTransaction(l.name)
-		results, update := tr.Transact(oops...)
-		ob.Update = update
-		failed := false
+		results, committed, commitErr := transact(oops)
 		for i, r := range results {
 			var or oResult
 			switch {
@@ -265,7 +280,6 @@ func (l *txnLab) run(ops []TOp) (ob tObs) {
 				or.Kind = "null"
 			case r.Error != "":
 				or.Kind, or.Err, or.Msg = "err", errClass(r.Error), r.Error+": "+r.Details
-				failed = true
 			case i < len(ops) && ops[i].Kind == "insert":
 				or.Kind, or.UUID = "uuid", r.UUID.GoUUID
 			case i < len(ops) && ops[i].Kind == "select":
@@ -286,13 +300,7 @@ func (l *txnLab) run(ops []TOp) (ob tObs) {
 			}
 			ob.Results = append(ob.Results, or)
 		}
-		if !failed {
-			if err := l.imdb.Commit(l.name, uuid.New(), update); err != nil {
-				ob.CommitErr = err.Error()
-			} else {
-				ob.Committed = true
-			}
-		}
+		ob.Committed, ob.CommitErr = committed, commitErr
 	}()
 	st, refs, err := l.state()
 	if err != nil && ob.Panic == "" {
